@@ -15,10 +15,12 @@
      periph 0..2,  tr 0..3 (transits),  depot BOOLEAN,  lag, bio BOOLEAN
      metab  BOOLEAN     a metabolite compartment fed by the central compartment instead of the output
      zoin   BOOLEAN     a zero-order input into the central compartment (set_zero_order_input)
-     edit   0..3   statement-level edits with no structural effect, a fixed script:  0 -COV-> 1 (add_covariate_effect exp,
-                   a new theta) -CAT-> 2 (add_covariate_effect cat2: a Piecewise written as several one-line IFs)
-                   -RCOV-> 3 (remove the first effect again: the thetas behind it are renumbered)
-     iov    0..2   0 -IOV-> 1 (add_iov: one-line IFs per occasion, $ABBR) -RIOV-> 2 (remove_iov)
+     script 0..9   statement-level edits with no structural effect; ONE of three fixed scripts can be walked:
+                   0 -COV-> 1 (add_covariate_effect exp: a new theta) -CAT-> 2 (cat2 effect: a Piecewise written as several
+                     one-line IFs) -RCOV-> 3 (the first effect removed again: the thetas behind it are renumbered)
+                   0 -IOV-> 4 (add_iov: one-line IFs per occasion, $ABBR) -RIOV-> 5 (remove_iov)
+                   0 -CE-> 6 (set_combined_error_model) -RUV1-> 7 / -RUV2-> 8 (set_iiv_on_ruv with the same / with separate
+                     etas: eta x eps interaction terms in Y) -RRV-> 9 (remove_iiv of one of the RUV etas)
      rcov   BOOLEAN  a covariate effect of the start model removed (RCL / RV edit ONE variable of the multi-assignment
                    block IF of pheno_block);  IIV (add_iiv) and FIX (fix_parameters) do not change the state
      trans  0..4        TRANS of the control stream (0: none, after a $DES model)
@@ -34,7 +36,7 @@ VARIABLE s
 vars == <<s>>
 
 Vec(a, p, d, t) == [abs |-> a, elim |-> "FO", periph |-> p, tr |-> 0, depot |-> d, lag |-> FALSE, bio |-> FALSE,
-                    metab |-> FALSE, zoin |-> FALSE, edit |-> 0, iov |-> 0, rcov |-> FALSE, trans |-> t]
+                    metab |-> FALSE, zoin |-> FALSE, script |-> 0, rcov |-> FALSE, trans |-> t]
 StartState ==
     ("pheno_real"   :> Vec("INST", 0, FALSE, 2)) @@      \* ADVAN1 TRANS2
     ("pheno_block"  :> Vec("INST", 0, FALSE, 2)) @@      \* ADVAN1 TRANS2, TVCL and TVV assigned in one IF / ELSE block
@@ -141,6 +143,8 @@ ActDef ==
     ("ZI"     :> Tok("Z", "on", 0))   @@
     ("COV"    :> Tok("X", "cov", 0))  @@ ("CAT" :> Tok("X", "cat", 0)) @@ ("RCOV" :> Tok("X", "uncov", 0)) @@
     ("IOV"    :> Tok("X", "iov", 0))  @@ ("RIOV" :> Tok("X", "uniov", 0)) @@
+    ("CE"     :> Tok("X", "ce", 0))   @@ ("RUV1" :> Tok("X", "ruv", 7)) @@ ("RUV2" :> Tok("X", "ruv", 8)) @@
+    ("RRV"    :> Tok("X", "rrv", 0))  @@
     ("IIV"    :> Tok("X", "iiv", 0))  @@ ("FIX" :> Tok("X", "fix", 0)) @@
     ("RCL"    :> Tok("X", "rcov", 0)) @@ ("RV"  :> Tok("X", "rcov", 1))
 AllActs == DOMAIN ActDef
@@ -160,9 +164,11 @@ Post(p, a) ==
       [] a.k = "B" -> [p EXCEPT !.bio = (a.v = "on")]
       [] a.k = "M" -> [p EXCEPT !.metab = TRUE]
       [] a.k = "Z" -> [p EXCEPT !.zoin = TRUE]
-      [] a.k = "X" -> CASE a.v = "cov" -> [p EXCEPT !.edit = 1] [] a.v = "cat" -> [p EXCEPT !.edit = 2]
-                        [] a.v = "uncov" -> [p EXCEPT !.edit = 3]
-                        [] a.v = "iov" -> [p EXCEPT !.iov = 1] [] a.v = "uniov" -> [p EXCEPT !.iov = 2]
+      [] a.k = "X" -> CASE a.v = "cov" -> [p EXCEPT !.script = 1] [] a.v = "cat" -> [p EXCEPT !.script = 2]
+                        [] a.v = "uncov" -> [p EXCEPT !.script = 3]
+                        [] a.v = "iov" -> [p EXCEPT !.script = 4] [] a.v = "uniov" -> [p EXCEPT !.script = 5]
+                        [] a.v = "ce" -> [p EXCEPT !.script = 6] [] a.v = "ruv" -> [p EXCEPT !.script = a.n]
+                        [] a.v = "rrv" -> [p EXCEPT !.script = 9]
                         [] a.v = "rcov" -> [p EXCEPT !.rcov = TRUE]
                         [] OTHER -> p
 
@@ -175,9 +181,10 @@ Enabled(p, a) ==
     /\ (a.k = "Z" => ~p.zoin /\ ~p.metab)
     /\ (a.k = "E" => ~p.metab)
     /\ (a.k = "X" /\ a.v = "rcov" => ~p.rcov)
-    /\ (a.k = "X" /\ a.v = "cov" => p.edit = 0) /\ (a.k = "X" /\ a.v = "cat" => p.edit = 1)
-    /\ (a.k = "X" /\ a.v = "uncov" => p.edit = 2)
-    /\ (a.k = "X" /\ a.v = "iov" => p.iov = 0) /\ (a.k = "X" /\ a.v = "uniov" => p.iov = 1)
+    /\ (a.k = "X" /\ a.v \in {"cov", "iov", "ce"} => p.script = 0)
+    /\ (a.k = "X" /\ a.v = "cat" => p.script = 1) /\ (a.k = "X" /\ a.v = "uncov" => p.script = 2)
+    /\ (a.k = "X" /\ a.v = "uniov" => p.script = 4)
+    /\ (a.k = "X" /\ a.v = "ruv" => p.script = 6) /\ (a.k = "X" /\ a.v = "rrv" => p.script \in {7, 8})
     /\ Compatible(Post(p, a))
 
 Succs(p, tok) ==
@@ -197,7 +204,7 @@ DoLagTime         == \E tok \in {"L:1", "L:0"} : Step(tok)
 DoBioavailability == \E tok \in {"B:1", "B:0"} : Step(tok)
 DoAddMetabolite   == Step("M:BASIC")
 DoZeroOrderInput  == Step("ZI")
-DoParameterEdit   == \E tok \in {"COV", "CAT", "RCOV", "IOV", "RIOV", "IIV", "FIX", "RCL", "RV"} : Step(tok)
+DoParameterEdit   == \E tok \in {"COV", "CAT", "RCOV", "IOV", "RIOV", "CE", "RUV1", "RUV2", "RRV", "IIV", "FIX", "RCL", "RV"} : Step(tok)
 Next == \/ DoSetAbsorption \/ DoSetElimination \/ DoSetPeripherals \/ DoSetTransits \/ DoLagTime
         \/ DoBioavailability \/ DoAddMetabolite \/ DoZeroOrderInput \/ DoParameterEdit
 Spec == Init /\ [][Next]_vars
